@@ -11,6 +11,7 @@ CONSTANTS
   Ids = {1}
   Hosts = {"h0"}
   MaxWrites = 2
+  Writers = {"A", "B"}
   Lens = {1, 0}
   ReadMax = {4}
   Closers = {"A", "B"}
